@@ -1007,6 +1007,16 @@ fn mutations(rng: &mut Rng, ver: u8, pw: u8, frame: &[u8], count: usize, out: &m
                 b2.extend(&body[o + l..]);
                 p_line(out, ver, pw, fh, &b2);
             }
+            // declared property length (one byte) ending inside a property of a block that
+            // needs a two-byte length
+            if v >= 128 && v < 1000 {
+                for nv in [127usize, 100, 5, 1] {
+                    let mut b2 = body[..o].to_vec();
+                    b2.push(nv as u8);
+                    b2.extend(&body[o + l..]);
+                    p_line(out, ver, pw, fh, &b2);
+                }
+            }
             // property length off by one either way
             for d in [-1i64, 1] {
                 let nv = v as i64 + d;
@@ -1206,11 +1216,81 @@ fn directed_builders(out: &mut dyn Write) {
     writeln!(out, "END").unwrap();
 }
 
+/// the post-construction operations of a v5.0 PUBLISH (used by the connection for automatic alias
+/// mapping / replacement and store regulation): the result must be the packet a builder makes
+/// from the derived fields, so it is reported as a `B` case of those fields
+fn publish_op_case(out: &mut dyn Write, topic: &str, qos: u8, payload: &[u8], props: &Properties, op: u8, alias: u16, new_topic: &str) {
+    let base_has_alias = props.iter().any(|p| matches!(p, Property::TopicAlias(_)));
+    let without: Properties = props.iter().filter(|p| !matches!(p, Property::TopicAlias(_))).cloned().collect();
+    let mut with = without.clone();
+    with.push(Property::TopicAlias(TopicAlias::new(alias).unwrap()));
+    // applicability (the result must be a packet some builder call produces)
+    let (rtopic, rprops): (String, Properties) = match op {
+        0 => (topic.to_string(), with),                                  // add_topic_alias
+        1 => (String::new(), with),                                      // remove_topic_add_topic_alias
+        2 if !topic.is_empty() => (topic.to_string(), without),          // remove_topic_alias
+        3 if topic.is_empty() && base_has_alias => (new_topic.to_string(), without), // remove_topic_alias_add_topic
+        _ => return,
+    };
+    let desc = format!(
+        "topic={} qos={} dup=none retain=none pid={} payload={} props={}",
+        hex(rtopic.as_bytes()), qos, if qos > 0 { "1".to_string() } else { "none".to_string() }, hex(payload), props_hex(&rprops)
+    );
+    let (t, pl, ps, nt) = (topic.to_string(), payload.to_vec(), props.clone(), new_topic.to_string());
+    b_line(out, 5, 2, 0x30, &desc, move || {
+        let mut b = v5::GenericPublish::<u16>::builder().topic_name(t.as_str())?.qos(Qos::try_from(qos).unwrap()).payload(pl).props(ps);
+        if qos > 0 {
+            b = b.packet_id(1u16);
+        }
+        let p = b.build()?;
+        match op {
+            0 => Ok(p.add_topic_alias(alias)),
+            1 => Ok(p.remove_topic_add_topic_alias(alias)),
+            2 => Ok(p.remove_topic_alias()),
+            _ => p.remove_topic_alias_add_topic(nt),
+        }
+    }, |f, body| v5::GenericPublish::<u16>::parse(f, Arc::from(body)));
+}
+
+fn publish_ops(rng: &mut Rng, thorough: bool, out: &mut dyn Write) {
+    writeln!(out, "T codec publish-ops").unwrap();
+    let up = |n: usize| Property::UserProperty(UserProperty::new("k", "v".repeat(n)).unwrap());
+    // directed: property block sizes around the 127/128 and 16383/16384 length-field steps
+    let mut sizes: Vec<usize> = (118..=136).collect();
+    sizes.extend(16376..=16390);
+    for l in sizes {
+        let n = l - 6; // 1 (id) + 2 + 1 (key) + 2 + n (value) = l
+        for qos in [0u8, 1] {
+            for pl in [0usize, 1, 5] {
+                let payload = vec![0x41u8; pl];
+                for op in 0..4u8 {
+                    publish_op_case(out, "t", qos, &payload, &vec![up(n)], op, 7, "x/y");
+                    publish_op_case(out, "t", qos, &payload, &vec![Property::TopicAlias(TopicAlias::new(3).unwrap()), up(n)], op, 7, "x/y");
+                    publish_op_case(out, "", qos, &payload, &vec![up(n), Property::TopicAlias(TopicAlias::new(3).unwrap())], op, 7, "x/y");
+                }
+            }
+        }
+    }
+    // random
+    for i in 0..(if thorough { 4000 } else { 400 }) {
+        let big = i % 8 == 7;
+        let props = gen_props(rng, &PUBLISH_P, big);
+        let has_alias = props.iter().any(|p| matches!(p, Property::TopicAlias(_)));
+        let topic = if has_alias && rng.chance(1, 2) { String::new() } else { gen_topic(rng, false) };
+        let n = gen_len(rng, false);
+        let payload = gen_bytes(rng, n);
+        let nt = gen_topic(rng, false);
+        publish_op_case(out, &topic, rng.below(3) as u8, &payload, &props, rng.below(4) as u8, 1 + rng.below(65535) as u16, &nt);
+    }
+    writeln!(out, "END").unwrap();
+}
+
 pub fn generate(tier: &str, seed: u64, out: &mut dyn Write) {
     let thorough = tier == "thorough";
     let mut rng = Rng::new(seed);
     directed(out);
     directed_builders(out);
+    publish_ops(&mut rng, thorough, out);
     exhaustive(thorough, out);
     let rounds = if thorough { 1500 } else { 160 };
     let muts = if thorough { 30 } else { 14 };
